@@ -7,6 +7,10 @@ require (
 	gopkg.in/yaml.v3 v3.0.1
 )
 
-require golang.org/x/exp v0.0.0-20250305212735-054e65f0b394 // indirect
+require (
+	github.com/pkg/term v1.1.0 // indirect
+	golang.org/x/exp v0.0.0-20250305212735-054e65f0b394 // indirect
+	golang.org/x/sys v0.32.0 // indirect
+)
 
 replace github.com/richardwilkes/toolbox => /repo
